@@ -276,6 +276,18 @@ class Image(Traversable):
                         pairs = [alternate_sample, sample]
 
                     new_name = match.group(1)
+                    # the stem may already name another sample or pair
+                    taken_names = set(sample_dict.keys())
+                    taken_names.update(x.export_name for x in result)
+                    taken_names.difference_update((name, alternate_name))
+                    stem_count = 1
+                    stem_name = new_name
+                    while new_name in taken_names:
+                        stem_count += 1
+                        new_name = self._add_count_to_name(
+                            stem_name, 
+                            stem_count
+                        )
                     result_sample = combine_stereo(pairs[0], pairs[1], new_name)
                     marked[alternate_name] = True
                 
